@@ -327,7 +327,7 @@ func runC03(c *Ctx) {
 	c.R.Require("E1.slice", 150, "")
 	c.R.Require("E1.precond", 60, "")
 	c.R.Require("E2.field", 100, "")
-	c.narrowArith(nil, 30)
+	c.narrowArith(nil, 30, false)
 	c.R.Explain = "Clause A (no panic, no read beyond len) by abstract interpretation of every decoder entry point with arbitrary body bytes, " +
 		"arbitrary receiver contents, every dialect and version (selectors are unconstrained receiver/header fields); clause B follows from A because " +
 		"re-slices are proven against len, never cap; clause C (history independence) by taint tracking of the receiver's initial contents to " +
